@@ -138,7 +138,7 @@ func TypeSwitch(v interface{}) int {
 }
 
 // want: call of S.Bump, which writes memory, inside an expression
-func (s *S) CallsWriter(a int) int { return s.Bump(a) + 1 }
+func (s *S) CallsWriter(a int) int { return s.Bump(a) + s.n }
 
 func (s *S) Bump(a int) int {
 	s.n += a
@@ -203,7 +203,7 @@ func Slice3(b []byte) int { return len(b[0:1:2]) }
 func MakeCap(n int) int { return len(make([]byte, n, 2*n)) }
 
 // want: copy inside an expression
-func CopyExpr(a, b []byte) int { return copy(a, b) + 1 }
+func CopyExpr(a, b []byte) int { return copy(a, b) + len(a) }
 
 // want: unsupported expression *ast.TypeAssertExpr
 func Assert(v interface{}) int { return v.(int) }
